@@ -26,6 +26,7 @@ func init() {
 	register(&core.Scenario{Name: "c14-immutable-wrapper", Property: "C14", Weight: 3, Run: func(env *core.Env) { c14immutable(env, true) }})
 	register(&core.Scenario{Name: "c14-immutable-tags", Property: "C14", Weight: 3, Run: func(env *core.Env) { c14immutable(env, false) }})
 	register(&core.Scenario{Name: "c14-immutable-tags-concurrent", Property: "C14", Weight: 3, Bubble: true, Run: c14concurrent})
+	register(&core.Scenario{Name: "c14-immutable-wrapper-concurrent-deletes", Property: "C14", Weight: 1, Bubble: true, Run: c14wrapperConcurrent})
 }
 
 func isMutating(k reg.Kind) bool {
@@ -205,9 +206,32 @@ func c14immutable(env *core.Env, wrapper bool) {
 	ctx := context.Background()
 	var mem *ocimem.Registry
 	var r ociregistry.Interface
+	faultsOn := false
 	if wrapper {
 		mem = ocimem.New()
-		r = ocifilter.Immutable(mem)
+		var under ociregistry.Interface = mem
+		if c.Bool("backend.faults", 1, 2) {
+			// the registry under the wrapper is transiently unavailable for reads:
+			// whatever the wrapper asks it before deciding may fail
+			rate := c.Range("backend.faultrate", 2, 6)
+			under = reg.Wrap(mem, reg.NewTracker(), &reg.FaultPlan{CallErr: func(call *reg.Call) error {
+				if !faultsOn {
+					return nil
+				}
+				switch call.Method {
+				case "ResolveTag", "ResolveManifest", "ResolveBlob", "GetTag", "GetManifest", "GetBlob", "GetBlobRange":
+					if c.Bool("backend.fault", 1, rate) {
+						env.Fault("backend-read-fails")
+						if c.Bool("backend.fault.coded", 1, 2) {
+							return ociregistry.ErrTooManyRequests
+						}
+						return errors.New("backend unavailable")
+					}
+				}
+				return nil
+			}})
+		}
+		r = ocifilter.Immutable(under)
 	} else {
 		mem = ocimem.NewWithConfig(&ocimem.Config{ImmutableTags: true})
 		r = mem
@@ -247,7 +271,9 @@ func c14immutable(env *core.Env, wrapper bool) {
 	}
 	for i := 0; i < n; i++ {
 		op := g.Next()
+		faultsOn = true
 		res := reg.Exec(ctx, r, op, h)
+		faultsOn = false // the oracle's own reads see the registry as it is
 		env.Op(op.Kind.String() + ":" + reg.CodeOf(res.Err))
 		env.Logf("%d %s -> %s", i, op, res)
 		env.Sample("%s -> %s", op, res)
@@ -372,6 +398,78 @@ func c14concurrent(env *core.Env) {
 			}
 			if err := closureRetrievable(ctx, mem, repo, []closureItem{{true, dig}}); err != nil {
 				env.Failf("C14/immutable-tags-concurrent/closure-broken", "at the end of the run the manifest %s points at is not retrievable: %v", key, err)
+			}
+		}
+	})
+}
+
+// c14wrapperConcurrent: the delete clause of the immutable wrapper ("nothing is
+// ever deleted") under concurrent callers. Tag stability is not checked here: the
+// statement claims it under concurrency only for the in-memory registry's
+// immutable-tags mode, and the wrapper's source documents its race window.
+func c14wrapperConcurrent(env *core.Env) {
+	c := env.C
+	ctx := context.Background()
+	pools := mkPools(c)
+	mem := ocimem.New()
+	r := ocifilter.Immutable(mem)
+	ntasks := c.Range("ntasks", 2, 4)
+	progs := make([][]*reg.Op, ntasks)
+	for t := range progs {
+		for i, n := 0, c.Range("proglen", 2, 7); i < n; i++ {
+			progs[t] = append(progs[t], pools.genOp(c, false, false))
+		}
+	}
+	b0 := pools.blobs[0]
+	for _, rp := range pools.repos {
+		mem.PushBlob(ctx, rp, ociregistry.Descriptor{Digest: reg.Sha256(b0), Size: int64(len(b0)), MediaType: "application/octet-stream"}, bytes.NewReader(b0))
+	}
+	hists := make([][]histEntry, ntasks)
+	sched := env.Sched
+	for t := 0; t < ntasks; t++ {
+		t := t
+		sched.Spawn(fmt.Sprintf("client%d", t), func() {
+			h := reg.NewHandles()
+			for _, op := range progs[t] {
+				sched.Yield()
+				e := histEntry{task: t, op: op, call: sched.Seq()}
+				e.res = reg.Exec(ctx, r, op, h)
+				e.ret = sched.Seq()
+				hists[t] = append(hists[t], e)
+			}
+		})
+	}
+	env.Finally(func() {
+		for t, hst := range hists {
+			for _, e := range hst {
+				env.Op(e.op.Kind.String())
+				env.Logf("task %d [%d,%d] %s -> %s", t, e.call, e.ret, e.op, e.res)
+				env.Sample("task %d [%d,%d] %s -> %s", t, e.call, e.ret, e.op, e.res)
+				if e.res.Err != nil {
+					continue
+				}
+				switch e.op.Kind {
+				case reg.DeleteBlob, reg.DeleteManifest, reg.DeleteTag:
+					env.Failf("C14/immutable-wrapper-concurrent/"+e.op.Kind.String()+"/delete-succeeded", "task %d: %s succeeded through the immutable wrapper", t, e.op)
+				case reg.PushBlob, reg.MountBlob, reg.ResolveBlob:
+					if _, err := mem.ResolveBlob(ctx, e.op.Repo, e.op.Digest); err != nil {
+						env.Failf("C14/immutable-wrapper-concurrent/blob-lost", "task %d: %s succeeded, but at the end the blob is gone: %v", t, e.op, err)
+					}
+				case reg.PushManifest, reg.ResolveManifest:
+					d := e.res.Desc.Digest
+					if _, err := mem.ResolveManifest(ctx, e.op.Repo, d); err != nil {
+						env.Failf("C14/immutable-wrapper-concurrent/manifest-lost", "task %d: %s succeeded, but at the end manifest %s is gone: %v", t, e.op, d, err)
+					}
+					if e.op.Tag != "" {
+						if _, err := mem.ResolveTag(ctx, e.op.Repo, e.op.Tag); err != nil {
+							env.Failf("C14/immutable-wrapper-concurrent/tag-lost", "task %d: %s succeeded, but at the end the tag is gone: %v", t, e.op, err)
+						}
+					}
+				case reg.ResolveTag, reg.GetTag:
+					if _, err := mem.ResolveTag(ctx, e.op.Repo, e.op.Tag); err != nil {
+						env.Failf("C14/immutable-wrapper-concurrent/tag-lost", "task %d: %s succeeded, but at the end the tag is gone: %v", t, e.op, err)
+					}
+				}
 			}
 		}
 	})
